@@ -566,6 +566,25 @@ func (x *fx) safety(class, desc string, goal Term, p token.Pos) {
 	x.e.oblig(class, name, props, x.curReach, goal, x.pos(p), class+" of "+desc)
 }
 
+// writeTarget emits the write-freedom obligation for a write to object ref:
+// it was allocated during this activation of the unit, or it is listed in the
+// unit's `writes` clause.
+func (x *fx) writeTarget(ref Term, desc string, p token.Pos) {
+	e := x.e
+	if !e.wfree {
+		return
+	}
+	alts := []Term{fmt.Sprintf("(>= %s %s)", ref, e.entryState.alloc)}
+	for _, w := range e.writeRefs {
+		alts = append(alts, fmt.Sprintf("(= %s %s)", ref, w))
+	}
+	name := "write-target:" + desc
+	if x.tag != "" {
+		name += "@" + x.tag
+	}
+	e.oblig("write-target", name, e.writeProps, x.curReach, or(alts...), x.pos(p), "write to "+desc+" hits a fresh object or one listed in the writes clause")
+}
+
 // ---------- running ----------
 
 // run executes the function from the given entry state; args are the
